@@ -316,10 +316,11 @@ fn split_comment_token(token: Token) -> Vec<Token> {
         let n_lines = prev_text.matches('\n').count() as u32;
         line += n_lines;
 
+        // Columns count characters, like every other token's column.
         column = if n_lines == 0 {
-            column + prev_text.len() as u32
+            column + prev_text.chars().count() as u32
         } else {
-            (prev_text.len() - prev_text.rfind('\n').unwrap_or(0)) as u32
+            prev_text[prev_text.rfind('\n').unwrap() + 1..].chars().count() as u32 + 1
         };
 
         prev_pos = pos;
@@ -339,7 +340,7 @@ fn split_comment_token(token: Token) -> Vec<Token> {
             line,
             column,
             length,
-            pos: pos as u32 + length,
+            pos: token.pos + pos as u32,
             source: token.source,
         };
         ret.push(token);
